@@ -149,21 +149,21 @@ class World (object):
       if k == "add":
         _, mid, prio, v = op
         flags, idle, hard = VARIANTS[v]
-        st.feed(W.flow_mod(x, wire_match(MATCHES[mid]), W.OFPFC_ADD, W.a_output(2), priority=prio, idle=idle, hard=hard,
+        st.feed(W.flow_mod(x, wire_match(MATCHES[mid]), W.OFPFC_ADD, W.a_output(2, 0), priority=prio, idle=idle, hard=hard,
                            cookie=COOKIE[v], flags=flags))
         exp = ref.add(now, MATCHES[mid], prio, (2,), flags, idle, hard, COOKIE[v])
       elif k == "add-emerg":
-        st.feed(W.flow_mod(x, wire_match(MATCHES["A"]), W.OFPFC_ADD, W.a_output(2), priority=1, flags=W.OFPFF_EMERG))
+        st.feed(W.flow_mod(x, wire_match(MATCHES["A"]), W.OFPFC_ADD, W.a_output(2, 0), priority=1, flags=W.OFPFF_EMERG))
         exp = ref.add(now, MATCHES["A"], 1, (2,), W.OFPFF_EMERG)
       elif k in ("mod", "mods"):
         _, mid, prio = op
         st.feed(W.flow_mod(x, wire_match(MATCHES[mid]), W.OFPFC_MODIFY_STRICT if k == "mods" else W.OFPFC_MODIFY,
-                           W.a_output(3), priority=prio, cookie=COOKIE["mod"]))
+                           W.a_output(3, 0), priority=prio, cookie=COOKIE["mod"]))
         exp = ref.modify(now, MATCHES[mid], prio, (3,), k == "mods", cookie=COOKIE["mod"])
       elif k == "mod-out":
         # out_port is a DELETE-only filter: a MODIFY carrying one behaves like a plain MODIFY
         _, mid, port = op
-        st.feed(W.flow_mod(x, wire_match(MATCHES[mid]), W.OFPFC_MODIFY, W.a_output(3), priority=1, cookie=COOKIE["mod"], out_port=port))
+        st.feed(W.flow_mod(x, wire_match(MATCHES[mid]), W.OFPFC_MODIFY, W.a_output(3, 0), priority=1, cookie=COOKIE["mod"], out_port=port))
         exp = ref.modify(now, MATCHES[mid], 1, (3,), False, cookie=COOKIE["mod"])
       elif k in ("del", "dels"):
         mid = op[1]; prio = op[2] if k == "dels" else 0
